@@ -2038,31 +2038,47 @@ class Normaliser:
                                 out.extend(_canon_polarity(_prune_constant_tests(chain)))
                                 norm.log.append(f'N7 {path}::{qual}: first-match loop over a literal table of {len(elems)} rows rewritten as an if/elif chain')
                                 continue
-                # (1b) for i, x in enumerate(self.a.b): BODY   (x a new name)   ->   for i in range(len(self.a.b)): BODY[x := self.a.b[i]]
-                if isinstance(st, ast.For) and isinstance(st.target, ast.Tuple) and len(st.target.elts) == 2 and all(isinstance(e, ast.Name) for e in st.target.elts) \
-                        and isinstance(st.iter, ast.Call) and isinstance(st.iter.func, ast.Name) and st.iter.func.id == 'enumerate' and len(st.iter.args) == 1 and not st.iter.keywords \
-                        and isinstance(st.iter.args[0], ast.Attribute) and _attr_chain_only(st.iter.args[0]) \
-                        and (st.iter.args[0].attr not in norm._base_attr_enumerated(path, qual)):
-                    iv, xv, P = st.target.elts[0].id, st.target.elts[1].id, st.iter.args[0]
+                # (1b) for i, x in enumerate(self.a.b): BODY   ->   for i in range(len(self.a.b)): BODY[x := self.a.b[i]]
+                #      for i, (x, y) in enumerate(zip(self.a, self.b)): BODY  likewise (parallel per-item lists of one model have equal length)
+                pairs = None
+                if isinstance(st, ast.For) and isinstance(st.target, ast.Tuple) and len(st.target.elts) == 2 and isinstance(st.target.elts[0], ast.Name) \
+                        and isinstance(st.iter, ast.Call) and isinstance(st.iter.func, ast.Name) and st.iter.func.id == 'enumerate' and len(st.iter.args) == 1 and not st.iter.keywords:
+                    src, tgt = st.iter.args[0], st.target.elts[1]
+                    if isinstance(tgt, ast.Name) and isinstance(src, ast.Attribute) and _attr_chain_only(src):
+                        pairs = [(tgt.id, src)]
+                    elif isinstance(tgt, ast.Tuple) and all(isinstance(e, ast.Name) for e in tgt.elts) and isinstance(src, ast.Call) and isinstance(src.func, ast.Name) and src.func.id == 'zip' \
+                            and not src.keywords and len(src.args) == len(tgt.elts) and all(isinstance(a, ast.Attribute) and _attr_chain_only(a) for a in src.args):
+                        pairs = [(e.id, a) for e, a in zip(tgt.elts, src.args)]
+                    if pairs and any(P.attr in norm._base_attr_enumerated(path, qual) for _, P in pairs):
+                        pairs = None
+                if pairs:
+                    iv = st.target.elts[0].id
                     body_nodes = [n for b_ in st.body + st.orelse for n in ast.walk(b_)]
-                    root, attrs = root_and_attrs(P)
-                    subst_form = xv not in known and xv not in later
-                    disturbed = any(isinstance(n, ast.Name) and n.id in ((iv, xv, root) if subst_form else (iv, root)) and isinstance(n.ctx, (ast.Store, ast.Del)) for n in body_nodes) \
-                        or any(isinstance(n, ast.Attribute) and isinstance(n.ctx, (ast.Store, ast.Del)) and n.attr in attrs for n in body_nodes) \
-                        or any(isinstance(n, ast.Call) and isinstance(n.func, ast.Attribute) and n.func.attr in ('append', 'insert', 'pop', 'remove', 'sort', 'reverse', 'clear', 'extend')
-                               and ast.dump(n.func.value) == ast.dump(P) for n in body_nodes) \
-                        or any(isinstance(n, ast.Subscript) and isinstance(n.ctx, (ast.Store, ast.Del)) and ast.dump(n.value) == ast.dump(P) for n in body_nodes) \
-                        or any(isinstance(n, (ast.Lambda, ast.FunctionDef)) for n in body_nodes)
+                    names = [xv for xv, _ in pairs]
+                    subst = {xv: (xv not in known and xv not in later) for xv in names}
+                    disturbed = any(isinstance(n, (ast.Lambda, ast.FunctionDef)) for n in body_nodes) \
+                        or any(isinstance(n, ast.Name) and n.id == iv and isinstance(n.ctx, (ast.Store, ast.Del)) for n in body_nodes) or len(set(names)) != len(names) or iv in names
+                    for xv, P in pairs:
+                        root, attrs = root_and_attrs(P)
+                        disturbed = disturbed or any(isinstance(n, ast.Name) and n.id in ((xv, root) if subst[xv] else (root,)) and isinstance(n.ctx, (ast.Store, ast.Del)) for n in body_nodes) \
+                            or any(isinstance(n, ast.Attribute) and isinstance(n.ctx, (ast.Store, ast.Del)) and n.attr in attrs for n in body_nodes) \
+                            or any(isinstance(n, ast.Call) and isinstance(n.func, ast.Attribute) and n.func.attr in ('append', 'insert', 'pop', 'remove', 'sort', 'reverse', 'clear', 'extend')
+                                   and ast.dump(n.func.value) == ast.dump(P) for n in body_nodes) \
+                            or any(isinstance(n, ast.Subscript) and isinstance(n.ctx, (ast.Store, ast.Del)) and ast.dump(n.value) == ast.dump(P) and subst[xv] for n in body_nodes)
                     if not disturbed:
-                        item = ast.Subscript(value=copy.deepcopy(P), slice=ast.Name(id=iv, ctx=ast.Load()), ctx=ast.Load())
-                        if subst_form:
-                            tr_ = _Rename({}, {xv: item})
-                            st.body = [tr_.visit(b_) for b_ in st.body]
-                        else:       # the item name exists on the reference tree: bind it at the top of the body, as an index loop does
-                            st.body = [ast.copy_location(ast.Assign(targets=[ast.Name(id=xv, ctx=ast.Store())], value=item, lineno=st.lineno), st)] + st.body
+                        head = []
+                        for xv, P in pairs:
+                            item = ast.Subscript(value=copy.deepcopy(P), slice=ast.Name(id=iv, ctx=ast.Load()), ctx=ast.Load())
+                            if subst[xv]:
+                                tr_ = _Rename({}, {xv: item})
+                                st.body = [tr_.visit(b_) for b_ in st.body]
+                            else:       # the item name exists on the reference tree: bind it at the top of the body, as an index loop does
+                                head.append(ast.copy_location(ast.Assign(targets=[ast.Name(id=xv, ctx=ast.Store())], value=item, lineno=st.lineno), st))
+                        st.body = head + st.body
+                        P0 = pairs[0][1]
                         st.target = ast.copy_location(ast.Name(id=iv, ctx=ast.Store()), st.target)
-                        st.iter = ast.copy_location(ast.Call(func=ast.Name(id='range', ctx=ast.Load()), args=[ast.Call(func=ast.Name(id='len', ctx=ast.Load()), args=[copy.deepcopy(P)], keywords=[])], keywords=[]), st.iter)
-                        norm.log.append(f'N7 {path}::{qual}: enumerate({ast.unparse(P)}) with the new item name {xv} rewritten as an index loop')
+                        st.iter = ast.copy_location(ast.Call(func=ast.Name(id='range', ctx=ast.Load()), args=[ast.Call(func=ast.Name(id='len', ctx=ast.Load()), args=[copy.deepcopy(P0)], keywords=[])], keywords=[]), st.iter)
+                        norm.log.append(f'N7 {path}::{qual}: enumerate over {", ".join(ast.unparse(P) for _, P in pairs)} rewritten as an index loop')
                 # (2) for V in itertools.count(): if C: break; BODY   ->   V = 0; while not C: BODY; V += 1
                 if isinstance(st, ast.For) and isinstance(st.target, ast.Name) and isinstance(st.iter, ast.Call) and isinstance(st.iter.func, ast.Attribute) \
                         and st.iter.func.attr == 'count' and isinstance(st.iter.func.value, ast.Name) and st.iter.func.value.id == 'itertools' \
